@@ -15,3 +15,11 @@ for m in re.finditer(r'def (skel_\w+) : String := ("[0-9a-f]+")', src):
 out += ["", "end GorumsV.Skeletons", ""]
 open(os.path.join(V, "lean/GorumsV/Model/Skeletons.lean"), "w").write("\n".join(out))
 print(len(out) - 7, "digests pinned")
+
+# keep the normalised texts behind the pinned digests, so that a violation report can show old vs new
+import shutil
+src_dir = os.path.join(V, "out", "skel")
+dst_dir = os.path.join(V, "skel_pinned")
+if os.path.isdir(src_dir):
+    shutil.rmtree(dst_dir, ignore_errors=True)
+    shutil.copytree(src_dir, dst_dir)
